@@ -50,9 +50,28 @@ def oracle_c01(rr: Any, spec: Dict[str, Any]) -> List[Violation]:
     nyield = 0
     order = [e["m"] for e in tr if e["k"] == "yield"]
     N = spec.get("cfg", {}).get("N")
+    # tasks registered while the worker runs: a message naming one is known iff its processing began after the
+    # registration
+    late = {nm for nm, ts in (spec.get("tasks") or {}).items() if ts.get("late_at") is not None}
+    reg_i = {e["task"]: e["i"] for e in tr if e["k"] == "register"}
+    cb_i = {}
+    for e in tr:
+        if e["k"] == "cb_enter":
+            cb_i.setdefault(e["m"], e["i"])
+    info = {i["d"]: i for i in rr.sc.deliveries} if getattr(rr, "sc", None) is not None else {}
+    for e in tr:
+        if e["k"] == "foreign_call":
+            v.append(Violation("wrong-function-invoked", f"delivery {e['m']}: a shared task's function ran for a message naming the worker's own task {e.get('task')!r}"))
     for d, y in yields.items():
         nyield += 1
         n = starts.get(d, 0)
+        tname = info.get(d, {}).get("task")
+        if y["mk"] == "valid" and tname in late:
+            known = tname in reg_i and d in cb_i and cb_i[d] > reg_i[tname]
+            if not known:
+                if n and (tname not in reg_i):
+                    v.append(Violation("invalid-executed", f"delivery {d} for the not yet registered task {tname} led to an execution"))
+                continue
         if y["mk"] == "valid":
             if n == 0:
                 if rr.outcome in ("returned", "horizon", "deadlock", "raised"):
@@ -318,6 +337,10 @@ def oracle_c05(rr: Any, spec: Dict[str, Any]) -> List[Violation]:
                 evs = per[d]
                 if first(evs, "ack") is not None and first(evs, "ack_done") is None:
                     v.append(Violation("ack-incomplete", f"delivery {d} ack started but not completed at return"))
+                inf = rr.sc.deliveries[d]
+                if (inf.get("ackable") and inf.get("kind") == "valid" and first(evs, "ack") is None
+                        and first(evs, "cb_raise") is None and first(evs, "task_start") is not None):
+                    v.append(Violation("not-acknowledged-at-return", f"delivery {d} was executed and its processing ended normally, but it was never acknowledged (run to completion includes the acknowledgement)"))
     # (c)/(e) promptness and termination (bounded progress, virtual time)
     F = max([exit_t[d] for d in accepted if d in exit_t] + [S_t]) if accepted else S_t
     all_done_known = all(d in exit_t for d in accepted)
@@ -555,7 +578,7 @@ def _labels_want(m: Dict[str, Any], tok: str) -> Dict[str, Any]:
     want = dict(m.get("labels", {}))
     want["own"] = tok
     if m.get("timeout") is not None:
-        want["timeout"] = m["timeout"]
+        want["timeout"] = str(m["timeout"]) if m.get("timeout_str") else m["timeout"]
     return want
 
 
@@ -609,6 +632,21 @@ def oracle_c10(rr: Any, spec: Dict[str, Any]) -> "tuple[List[Violation], int]":
         want = [("mw:pre_send", i) for i in overriding("pre_send")] + [("kick", None)]
         if not failed:
             want += [("mw:post_send", i) for i in overriding("post_send")]
+        nk = sum(1 for x in seq if x[0] == "kick")
+        if spec.get("retry") and nk > 1:
+            # re-sends of the retry middleware are sends like any other; they may overlap the tail of the
+            # previous send (slow post_send hooks), so the events are grouped by the _retries counter
+            groups: Dict[int, List[Any]] = defaultdict(list)
+            for e in evs:
+                if e["k"] in ("mw:pre_send", "mw:post_send"):
+                    groups[int((e.get("labels") or {}).get("_retries", 0) or 0)].append((e["k"], e.get("mw")))
+                elif e["k"] == "kick":
+                    groups[int(e.get("retries", 0) or 0)].append(("kick", None))
+            for r_, g in sorted(groups.items()):
+                if g != want:
+                    v.append(Violation("client-hook-order", f"send {tok}, re-send #{r_}: observed {g}, expected {want}"))
+                    break
+            continue
         if seq != want:
             v.append(Violation("client-hook-order", f"send {tok}: observed {seq}, expected {want}"))
             continue
@@ -660,11 +698,13 @@ def oracle_c10(rr: Any, spec: Dict[str, Any]) -> "tuple[List[Violation], int]":
         if seq != want:
             v.append(Violation("worker-hook-order", f"delivery {d} (outcome {how}): observed {seq}, expected {want}"))
             continue
-        marks = sorted(k for k in (first(evs, "mw:pre_execute") or {}).get("marks", []) if "pre_send" in k)
+        arrived = (first(evs, "mw:pre_execute") or {}).get("marks", [])
+        # a re-sent message (retry middleware) arrives with the markers its previous delivery had collected
+        marks = sorted(k for k in arrived if "pre_send" in k or spec.get("retry"))
         for e in evs:
             if e["k"] == "mw:pre_execute":
-                if e["marks"] != sorted(marks):
-                    v.append(Violation("pre-execute-chain", f"delivery {d}: pre_execute of mw{e['mw']} saw {e['marks']}, expected {sorted(marks)}"))
+                if e["marks"] != sorted(set(marks)):
+                    v.append(Violation("pre-execute-chain", f"delivery {d}: pre_execute of mw{e['mw']} saw {e['marks']}, expected {sorted(set(marks))}"))
                 if mws[e["mw"]]["pre_execute"].get("replace"):
                     marks.append(f"mk_{e['mw']}_pre_execute")
     return v, checked
